@@ -86,7 +86,7 @@ func genC08(r *Rng, tier string) *World {
 		var ops []Op
 		for i := 0; i < 1+r.Intn(3); i++ {
 			op := genExecOp(r, w, cfgs, 0.3)
-			op.Collect = Pick(r, []string{"", "", "CollectMap", "Collect"})
+			op.Collect = Pick(r, []string{"", "", "CollectMap", "Collect", "SanitizeMapAndCollect", "SanitizeListAndCollect"})
 			ops = append(ops, op)
 		}
 		w.Tasks = append(w.Tasks, ops)
@@ -164,13 +164,19 @@ func runC08(x *X) *Violation {
 			}
 		}
 	}
+	if x.SanitizeBad != "" {
+		return &Violation{Class: "C08/sanitize-and-collect-output-differs", Detail: "interleaving " + con.sig + ": " + x.SanitizeBad}
+	}
+	// the object graph of a schema changing is a reach probe, not a verdict: a correct lazy cache changes it too;
+	// what counts is behaviour, checked below against freshly built schemas
 	fp1 := x.fingerprints()
 	for i := range fp0 {
 		if fp0[i] != fp1[i] {
-			return &Violation{Class: "C08/schema-modified-by-execution", Detail: fmt.Sprintf("fingerprint of schema %d changed during concurrent use", i)}
+			x.Probes["schema_object_graph_changed"]++
 		}
 	}
-	// every task alone, same visit orders
+	// every task alone in a fresh world (fresh pools, freshly built schemas), same visit orders
+	x.BuildSchemas()
 	for t := range w.Tasks {
 		x.forceVisitsFrom("c"+strconv.Itoa(t)+"/", "s"+strconv.Itoa(t)+"/")
 		x.FreshRun("s" + strconv.Itoa(t) + "/")
@@ -258,8 +264,12 @@ func genC19(r *Rng, tier string) *World {
 			if missing {
 				v = VNil()
 			}
+			if r.P(0.5) {
+				v = typedLists(root, v)
+			}
 			op.Input = v
 		}
+		op.Rev = r.P(0.3)
 		return op
 	}
 	if r.P(0.25) {
@@ -286,6 +296,46 @@ func genC19(r *Rng, tier string) *World {
 	}
 	w.Tasks = [][]Op{ops}
 	return w
+}
+
+// typedLists turns homogeneous, correctly typed list inputs into typed Go slices
+// ([]string, []int, ...) the way a caller holding typed data would pass them.
+func typedLists(n *Node, v Val) Val {
+	switch n.Kind {
+	case "struct":
+		if v.K != "m" {
+			return v
+		}
+		out := VM()
+		for _, kv := range v.M {
+			var f *Field
+			for _, ff := range n.Fields {
+				if ff.Key == kv.K {
+					f = ff
+				}
+			}
+			if f == nil {
+				out.M = append(out.M, kv)
+			} else {
+				out.M = append(out.M, KV{kv.K, typedLists(f.N, kv.V)})
+			}
+		}
+		return out
+	case "ptr":
+		return typedLists(n.Elem, v)
+	case "slice":
+		if v.K != "l" || !n.Elem.IsPrim() || n.Elem.Kind == "time" || len(v.L) == 0 {
+			return v
+		}
+		want := map[string]string{"string": "s", "int": "i", "float": "f", "bool": "b"}[n.Elem.Kind]
+		for _, e := range v.L {
+			if e.K != want {
+				return v
+			}
+		}
+		return Val{K: "tl", S: n.Elem.Kind, L: v.L}
+	}
+	return v
 }
 
 func ownedSnapshot(e *Engine) []string {
@@ -328,7 +378,9 @@ func runC19(x *X) *Violation {
 		fp := x.fingerprints()
 		for i := range fp0 {
 			if fp[i] != fp0[i] {
-				return &Violation{Class: "C19/schema-modified-by-execution", Detail: when + ": the schema object graph changed"}
+				// reach probe only: behaviour (first use vs later use, fresh schema vs used schema) is the verdict
+				x.Probes["schema_object_graph_changed"]++
+				fp0[i] = fp[i]
 			}
 		}
 		return nil
@@ -403,7 +455,9 @@ func runC19(x *X) *Violation {
 				}
 			}
 		}
-		// each task alone gives the same results (a shared default mutated by the other task would show here)
+		// each task alone, on freshly built schemas, gives the same results (a shared default mutated by the other task would show here)
+		x.BuildSchemas()
+		root = x.Built[0].N
 		for t := range w.Tasks {
 			x.forceVisitsFrom("c"+strconv.Itoa(t)+"/", "s"+strconv.Itoa(t)+"/")
 			x.FreshRun("s" + strconv.Itoa(t) + "/")
@@ -499,6 +553,24 @@ func runC19(x *X) *Violation {
 			}
 		}
 	}
+	// a schema that has been used behaves like one that has not: every call again on freshly built schemas
+	x.BuildSchemas()
+	root = x.Built[0].N
+	x.FreshRun("z/")
+	for i := range w.Tasks[0] {
+		op := &w.Tasks[0][i]
+		if op.Kind != "parse" && op.Kind != "validate" || i >= len(seen) {
+			continue
+		}
+		x.forceVisitsFrom(seen[i].phase, "z"+strconv.Itoa(i)+"/")
+		x.SetPhase("z" + strconv.Itoa(i) + "/")
+		x.Dec.Benign["z"+strconv.Itoa(i)+"/"] = true
+		fresh := x.Exec("z:"+strconv.Itoa(i), op)
+		if f, d := CompareResults(seen[i].res, fresh); f != "" {
+			return &Violation{Class: "C19/used-schema-differs-from-fresh-schema " + f,
+				Detail: fmt.Sprintf("call %d on the schema after %d earlier uses vs on a freshly built schema: %s", i, i, d)}
+		}
+	}
 	return nil
 }
 
@@ -511,7 +583,7 @@ func (x *X) execLean(t int, op *Op) *Result {
 	b := x.Built[op.Schema]
 	res := &Result{}
 	rec := &OpRec{RootNode: b.N, Validate: op.Kind == "validate"}
-	dest := reflect.New(b.Typ)
+	dest := reflect.New(b.typ(op.Rev))
 	var data any
 	if op.Kind == "validate" {
 		populate(dest.Elem(), op.Input)
